@@ -208,8 +208,12 @@ func (hc *HashChain) Fill(argb []uint32, quality int, xsize, ysize int, lowEffor
 	}
 
 	// Decide between parallel and serial second pass.
+	// The two second passes differ in how they extend matches to the left, so
+	// the choice must not depend on GOMAXPROCS (output is documented to depend
+	// on the image and options only); the worker count only partitions the
+	// position range of fillParallel.
 	numWorkers := runtime.GOMAXPROCS(0)
-	if numWorkers > 1 && size > 50000 && !lowEffort {
+	if size > 50000 && !lowEffort {
 		hc.fillParallel(argb, xsize, size, iterMax, winSize, numWorkers)
 	} else {
 		hc.fillSerial(argb, xsize, size, iterMax, lowEffort, winSize)
